@@ -452,8 +452,10 @@ def _run_sequence(seed, index, acc, want_render=12):
         elif name == 'acct_cash_gbp':
             chk('cash-ledger', res == 0.0, res, 0.0)
         elif name in ('acct_equity', 'acct_mv'):
-            fig = L.equity if name == 'acct_equity' else L.mv
-            exp = {p: fig(p) for p in L.order}
+            # the statement of this clause: the per-portfolio FIGURES (as the broker reports them now) and their sum; whether those
+            # figures are right is the business of cash-ledger / valued-at-latest-price
+            fig = 'pf_equity' if name == 'acct_equity' else 'pf_mv'
+            exp = {p: call_getter(fig, p) for p in L.order}
             exp['master'] = sum(exp.values()) if exp else 0.0
             chk('account-totals-are-sums', isinstance(res, dict) and set(res) == set(exp)
                 and all(close(res[k], exp[k]) for k in exp), res, exp)
@@ -462,7 +464,9 @@ def _run_sequence(seed, index, acc, want_render=12):
         elif name == 'pf_mv':
             chk('valued-at-latest-price', close(res, L.mv(pid)), [pid, res], L.mv(pid))
         elif name == 'pf_equity':
-            chk('valued-at-latest-price', close(res, L.equity(pid)), [pid, res], L.equity(pid))
+            # equity = cash + market value, with the cash the portfolio actually has (its correctness is cash-ledger's business)
+            want = broker.portfolios[pid].cash + L.mv(pid)
+            chk('valued-at-latest-price', close(res, want), [pid, res], want)
         elif name == 'pf_dict':
             exp = expect_dict(pid)
             chk('holdings-are-net-fills', isinstance(res, dict) and set(res) == set(exp)
@@ -747,10 +751,14 @@ def _run_sequence(seed, index, acc, want_render=12):
         stats['fills'] += len(exp)
         # match every OBSERVED fill with one pending order (by order id; else by asset), each order at most once
         unmatched = list(pend_all)
+        known_ids = set(order_objs[x[1]].order_id for x in pend_all)
         matches = []
         for p, a, q, price, comm, dt, oid in obs:
-            cands = [x for x in unmatched if order_objs[x[1]].order_id == oid] or [x for x in unmatched if x[2] == a]
-            best = min(cands, key=lambda x: (x[0] != p, (x[2], x[3]) != (a, q), pend_all.index(x))) if cands else None
+            if oid in known_ids:
+                cands = [x for x in unmatched if order_objs[x[1]].order_id == oid]
+            else:                       # the order id did not survive: fall back on the asset
+                cands = [x for x in unmatched if x[2] == a]
+            best = min(cands, key=lambda x: ((x[2], x[3]) != (a, q), x[2] != a, x[0] != p, pend_all.index(x))) if cands else None
             if best is not None:
                 unmatched.remove(best)
             matches.append(best)
